@@ -46,6 +46,10 @@ FIXED = [
     "fixed: property=C08 1fb17bb with --power-poles small the grid poles (wire reach 7.5) were used as circuit relays with 9-tile hops: circuit wires longer than the pole's reach",
     "fixed: property=C08 4d9d4b8 explicit memory/latch module wires (write gate -> hold gate, latch -> multiplier, remappers) were never relay-routed and exceeded the 9-tile reach under sprawling layouts",
     "fixed: property=C09 51a4d64 a non-square user entity placed with direction east/west was emitted off the tile grid, one tile away from the requested tile",
+    "fixed: property=C14 575ebf7 `Bundle b = 5;` (a non-bundle value for a Bundle variable) was accepted",
+    "fixed: property=C14 ee17f4d a zero loop step given through an int variable (`int s = 0; for i in 0..5 step s`) was accepted",
+    "fixed: property=C14 033b49c a bare bundle comparison in an assignment (`lamp.enable = bundle > 0;`) was not diagnosed (unrelated DataFormatError or acceptance)",
+    "fixed: property=C14 dc6fac7 `chest.output[\"signal-W\"]` (reserved signal in a bundle selection) was accepted",
     "fixed: property=C01 7701d37 a comparison with an integer literal on the left (`3 < a`) was emitted as `signal-0 < a`",
 ]
 
